@@ -9,7 +9,8 @@ mod rng;
 use std::io::{BufWriter, Write};
 
 fn main() {
-    std::panic::set_hook(Box::new(|_| {}));
+    // contract panics are caught and recorded as failed calls; VERIF_DEBUG=1 prints them (and the harness's own)
+    if std::env::var("VERIF_DEBUG").is_ok() { std::panic::set_hook(Box::new(|i| { eprintln!("panic: {}", i); })); } else { std::panic::set_hook(Box::new(|_| {})); }
     let args: Vec<String> = std::env::args().collect();
     let family = args.get(1).map(|s| s.as_str()).unwrap_or("");
     let out_path = args.get(2).cloned().unwrap_or_else(|| "/dev/stdout".to_string());
